@@ -15,6 +15,10 @@ import TinkVerif.Props.GlueTie.KwpFull
 import TinkVerif.Props.GlueTie.Unreader
 import TinkVerif.Props.GlueTie.StreamSeg
 import TinkVerif.Props.GlueTie.Rand
+import TinkVerif.Props.GlueTie.Keyset
+import TinkVerif.Props.GlueTie.ManagerId
+import TinkVerif.Props.GlueTie.HpkeCtx
+import TinkVerif.Props.GlueTie.GcmSiv
 /-
   GlueTie: the small byte-level glue functions of tink-go (output prefixes, segment nonces, length blocks,
   counter / tag masks, AIV, CMAC doubling and padding, HPKE labels) are REGENERATED from /repo's current source
@@ -46,6 +50,10 @@ import TinkVerif.Props.GlueTie.Rand
     Props.GlueTie.Unreader          Gen/GlueUnreader (C05 C07 C14)            record / replay state machine of streamingaead `unreader` (model in the tie file)
     Props.GlueTie.StreamSeg         Gen/GlueStreamSeg (C07)                   Model/Stream `write`, `close`, `read` (whole Writer.Write / Close, Reader.Read)
     Props.GlueTie.Rand              Gen/GlueRand     (C20)                    Model/Rand `seg`, `wordAt`: MustRand, GetRandomBytes/Uint32, NewBytesFromRand
+    Props.GlueTie.Keyset            Gen/GlueKeyset   (C13 C14)                Model/Keyset `validKey`, `validate`, `hasSecrets` (whole Validate / validateKey / hasSecrets)
+    Props.GlueTie.ManagerId         Gen/GlueManagerId (C11 C20)               Model/Manager `drawId`, Model/Rand `words` (whole newRandomKeyID)
+    Props.GlueTie.HpkeCtx           Gen/GlueHpke     (C06)                    Model/Hpke `keySchedule`, `computeNonce` (whole createContext / computeNonce)
+    Props.GlueTie.GcmSiv            Gen/GlueGcmSiv   (C01 C02)                Model/Ctr `xorLE32`, Model/Aead `GcmSiv.deriveKeys/tag/decrypt` (whole aesCTR, computeTag, deriveKeys, computePolyval, Decrypt)
     Props.GlueTie.Prf               Gen/GluePrf      (C15)                    prf/subtle AESCMACPRF truncation and guards
 
   This file only collects them (and repeats the axiom audit for every tie theorem).
